@@ -474,8 +474,12 @@ def DoS.toDense : DoS F → Outcome (List F)
   | .d p => .ok p
   | .s p => sparseToDense p
 
-/-- the `while` loop of `divide_with_q_and_r`.  Over a field every iteration shortens the
-    remainder, so `fuel = remainder.len() + 1` is never exhausted. -/
+/-- the `while` loop of `divide_with_q_and_r`.  Over a field, and with a divisor whose last stored
+    term really is its leading term, every iteration shortens the remainder, so
+    `fuel = remainder.len() + 1` is never exhausted.  With a sparse divisor that stores its top
+    degree twice (possible: `from_coefficients_vec` does not merge equal degrees) the leading term
+    is not cancelled and the Rust loop does not terminate; the model then runs out of fuel and
+    returns the current state — such inputs cannot be part of the correspondence stream. -/
 def divLoop (db : Nat) (inv : F) (bterms : Terms F) : Nat → List F → List F → Outcome (List F × List F)
   | 0, q, r => .ok (q, r)
   | fuel + 1, q, r =>
